@@ -443,6 +443,7 @@ class NodeEval(on.Evaluator):
         self.target = None
         self.factor = None
         self.extra = {}      # pseudo nodes: key -> base value
+        self.touched = None  # during a perturbation: id -> recomputed value of every node above the target
 
     # -- node hook
     def value(self, d):
@@ -457,7 +458,10 @@ class NodeEval(on.Evaluator):
             return self.cache[k] * self.factor
         if k not in self.dirty and k in self.cache:
             return self.cache[k]
-        return self._node(d)
+        v = self._node(d)
+        if self.touched is not None:
+            self.touched[k] = v
+        return v
 
     def _node(self, d):
         if d[0] in ("sqrt", "cbrt"):
@@ -467,7 +471,7 @@ class NodeEval(on.Evaluator):
             # atan2(+-0, x<0) = +-pi: the sign of a zero decides; stay off the cut
             y, x = self.value(d[1]), self.value(d[2])
             yr, xr = on._real(y, "atan2"), on._real(x, "atan2")
-            if xr <= 0 and abs(yr) <= mpf(10) ** -9 * max(abs(xr), mpf(10) ** -300):
+            if xr <= 0 and abs(yr) <= mpf(10) ** -9 * max(abs(xr), 1):
                 raise Unjudgeable("on_branch_cut:atan2")
             v = on._guard_pole(on._atan2, "atan2")(yr, xr)
         elif d[0] == "Add":
@@ -556,6 +560,10 @@ def _parents(root):
 RECIP_INV_HEADS = ("ASec", "ACsc", "ACot", "ACoth", "ASech", "ACsch", "asec", "acsc", "acot", "acoth", "asech", "acsch")
 
 
+DISCONT_HEADS = ("Equality", "Unequality", "LessThan", "StrictLessThan", "Max", "Min", "Sign", "Floor", "Ceiling",
+                 "Truncate", "ATan2", "Contains")
+
+
 def exact_leaf(d):
     """is the node a leaf whose value the evaluators obtain without rounding (exactly representable double)"""
     t = d[0]
@@ -611,6 +619,7 @@ def reference(node, env=None, cmode=False, margin=1e-9, dps=50, mag=280, kappa_m
             par, nodes = _parents(node)
             delta = mpf(2) ** -DELTA_BITS
             E = mpf(0)
+            Enode = {}          # id -> first-order error mass of that node's own value
             root = id(node)
             ev.dirty = set()
             for k in ev.order:
@@ -630,10 +639,12 @@ def reference(node, env=None, cmode=False, margin=1e-9, dps=50, mag=280, kappa_m
                 if b0 == 0:
                     continue
                 worst = mpf(0)
+                local = {}
                 for sgn in ((1, -1) if two_sided else (1,)):
                     ev.dirty = dirty
                     ev.target = k
                     ev.factor = 1 + sgn * delta
+                    ev.touched = {}
                     try:
                         v = ev.value(node) if k != root else b0 * ev.factor
                     except Unjudgeable as u:
@@ -641,7 +652,25 @@ def reference(node, env=None, cmode=False, margin=1e-9, dps=50, mag=280, kappa_m
                     if isinstance(v, bool):
                         v = mpf(1) if v else mpf(0)
                     worst = max(worst, abs(v - base))
+                    for q, vq in ev.touched.items():
+                        c0 = ev.cache.get(q)
+                        if c0 is None or isinstance(vq, bool) or isinstance(c0, bool):
+                            continue
+                        local[q] = max(local.get(q, mpf(0)), abs(vq - c0))
+                ev.touched = None
                 E += worst / delta
+                for q, dq in local.items():
+                    Enode[q] = Enode.get(q, mpf(0)) + dq / delta
+                if not isinstance(k, tuple):
+                    Enode[k] = Enode.get(k, mpf(0)) + abs(b0)
+            # a discontinuous consumer (relational, max/min, sign/floor/..., atan2, contains) is only judged when
+            # the uncertainty 64u*E_a of each of its inputs is far below the kink margin (the kink guards of the
+            # evaluator assume accurate inputs; e.g. cos(2**63+1) as an input of atan2(., 0) is pure noise)
+            lim = (mpf(margin) if margin is not None else mpf(10) ** -9) / (1024 * mpf(2) ** -53)
+            for q, eq_ in Enode.items():
+                if eq_ > lim and any(isinstance(nodes[w][0], str) and nodes[w][0] in DISCONT_HEADS
+                                     for w in par.get(q, ()) if w in nodes):
+                    raise Unjudgeable("ill_conditioned:uncertain_input_of_discontinuous_node")
             r = Ref()
             r.value = +base
             r.E = +E
